@@ -482,6 +482,7 @@ func checkC04(c *Ctx) {
 	laSizes(c, "LA-sizes")
 	laReadCounter(c, "SR-count")
 	runTD(c, "TD", map[string]bool{"reader": true})
+	footerRejects(c, footerPathFns(c))
 	_, t, _ := srcAnalysis(c)
 	runSR(c.U, r, t, func(f *ssa.Function) bool { return !c.U.isCtl(f) })
 	r.assume("value-level decoding correctness (levels, runs, PLAIN values, page chains) is NOT decided by this check")
@@ -497,6 +498,7 @@ func checkC16(c *Ctx) {
 	runEP(u, r, "EP/introspection", ops, fnSet(reach))
 	r.floor("EP/introspection/primitive", 4, "getMetaDataSize x2, ReadMetaData x2 (+constructor), PageHeadersAtOffset Seek x2, PageHeader")
 	laWalk(c, "LA-walk")
+	footerRejects(c, footerPathFns(c))
 	r.assume("equality of the listing with an independent walk of arbitrary files is value-level and NOT decided")
 }
 
